@@ -11,7 +11,7 @@ class Rig(object):
     """one device (SG_IO over a real file node, or iSCSI over the stand-in context) + its target"""
 
     def __init__(self, transport, device_type=0x00, qualifier=0, readwrite=True, detect_replugged=True, blocksize=512,
-                 target=None, **tkw):
+                 target=None, lun=0, **tkw):
         install.ensure()
         self.transport = transport
         self.node = None
@@ -26,9 +26,9 @@ class Rig(object):
             from pyscsi.pyiscsi.iscsi_device import ISCSIDevice
             self.target = mk()
             name = "iqn.2000-01.verif:t%d" % next(_n)
-            registry.by_url[("portal:3260", name, 0)] = self.target
-            self.key = ("portal:3260", name, 0)
-            self.dev = ISCSIDevice("iscsi://portal:3260/%s/0" % name, "iqn.2000-01.verif:initiator")
+            registry.by_url[("portal:3260", name, lun)] = self.target
+            self.key = ("portal:3260", name, lun)
+            self.dev = ISCSIDevice("iscsi://portal:3260/%s/%d" % (name, lun), "iqn.2000-01.verif:initiator")
         else:
             raise ValueError(transport)
 
